@@ -1,7 +1,8 @@
 SPECIFICATION FairSpec
 CONSTANTS
-  P = 2
+  P = 3
   J = 1
   R = 2
+  BossWorks = FALSE
 PROPERTY Termination
 CHECK_DEADLOCK FALSE
